@@ -142,7 +142,7 @@ type Profile struct {
 	W          map[string]int
 	EmptyVals  bool
 	NoEmptyKey bool // ICS-23 cannot prove the empty key (C03-empty-key): the main C03 stream stays clear of it
-	ObsEvery   int // full observation burst after every n-th mutation (0 = only at the end)
+	ObsEvery   int  // full observation burst after every n-th mutation (0 = only at the end)
 	Initials   []int64
 	Order      string // "" random | asc | desc | alt : insertion order for balance profiles
 	ReadsW     int    // weight of single random reads
@@ -519,7 +519,23 @@ func genM1(r *rand.Rand, p Profile, id string) Case {
 				continue
 			}
 			v := t.versions[r.Intn(len(t.versions))]
-			ops = append(ops, []string{"reopenat", i64(v), fmt.Sprintf("fast=%v", r.Intn(3) != 0)})
+			if !t.dirty && t.cur == t.latest() && r.Intn(2) == 0 {
+				// the index is stale when the older version is opened: commits made with the index
+				// disabled change existing keys, then the index is built by an open AT v
+				ops = append(ops, []string{"reopen", "fast=false"})
+				for i, m := 0, 1+r.Intn(2); i < m; i++ {
+					ops = append(ops, []string{"set", hx(g.key()), hx([]byte(fmt.Sprintf("late%d", i)))}, []string{"save"})
+					t.versions = append(t.versions, t.latest()+1)
+				}
+				ops = append(ops, []string{"reopenat", i64(v), "fast=true"}, []string{"audit", "fast"})
+				for _, u := range t.versions {
+					if u >= v {
+						ops = append(ops, []string{"getv", hx(g.key()), i64(u)}, []string{"r", "v" + i64(u), "get", hx(g.key())})
+					}
+				}
+			} else {
+				ops = append(ops, []string{"reopenat", i64(v), fmt.Sprintf("fast=%v", r.Intn(3) != 0)})
+			}
 			t.cur = v
 			t.dirty = false
 			obs(r, g, t, false, &ops)
@@ -533,11 +549,20 @@ func genM1(r *rand.Rand, p Profile, id string) Case {
 			if r.Intn(3) != 0 {
 				ops = append(ops, []string{"reopen", "fast=true"})
 			}
-			ops = append(ops, []string{"load", i64(v0)})
-			if r.Intn(3) != 0 {
-				ops = append(ops, []string{"set", hx(g.key()), hx([]byte("uncommitted"))}, []string{"rm", hx(g.key())})
+			if t.cur == t.latest() && r.Intn(3) == 0 {
+				// the versions are deleted under a handle that stays at the latest one: until it is
+				// reloaded, every deleted version - its own included - must be reported as gone
+				top := t.latest()
+				ops = append(ops, []string{"dvfrom", i64(v0 + 1)}, []string{"r", "v" + i64(top), "size"}, []string{"r", "v" + i64(v0+1), "size"},
+					[]string{"vexists", i64(top)}, []string{"getv", hx(g.key()), i64(top)}, []string{"avail"}, []string{"latest"})
+				ops = append(ops, []string{"load", i64(v0)}, []string{"audit", "fast"})
+			} else {
+				ops = append(ops, []string{"load", i64(v0)})
+				if r.Intn(3) != 0 {
+					ops = append(ops, []string{"set", hx(g.key()), hx([]byte("uncommitted"))}, []string{"rm", hx(g.key())})
+				}
+				ops = append(ops, []string{"dvfrom", i64(v0 + 1)}, []string{"audit", "fast"})
 			}
-			ops = append(ops, []string{"dvfrom", i64(v0 + 1)}, []string{"audit", "fast"})
 			if r.Intn(3) == 0 {
 				ops = append(ops, []string{"rollback"})
 			}
@@ -729,6 +754,15 @@ func genM1(r *rand.Rand, p Profile, id string) Case {
 			// a rollback under storage faults; also the load of a version and a change-set extraction
 			if len(t.versions) < 2 {
 				continue
+			}
+			if !t.dirty && t.cur == t.latest() && r.Intn(2) == 0 {
+				// a commit without writes (its root record refers to the previous root), one with a
+				// write, and the change set of the latter: the predecessor is read through the reference
+				ops = append(ops, []string{"save"}, []string{"set", hx(g.key()), hx([]byte("after"))}, []string{"rm", hx(g.key())}, []string{"save"})
+				t.versions = append(t.versions, t.latest()+1)
+				t.versions = append(t.versions, t.latest()+1)
+				t.cur = t.latest()
+				ops = append(ops, []string{"fault", "changes", i64(t.latest()), i64(t.latest() + 1)})
 			}
 			v := t.versions[r.Intn(len(t.versions)-1)]
 			if r.Intn(2) == 0 {
